@@ -56,7 +56,7 @@ def fill_predicate(case, impl, j):
             wc = fee_of(fee, Fraction(round_he(cons)))
             if abs(comm - wc) > tol:
                 out.append('%s: commission %s, fee model on the rounded consideration gives %s' % (w, tx[4], float(wc)))
-            if comm < 0:
+            if comm < 0 and not (fee[0] == 'pct' and (fee[1] < 0 or fee[2] < 0)):     # (rebate rates are outside the stated [0,1] domain)
                 out.append('%s: negative commission %s' % (w, tx[4]))
             if fee[0] == 'zero' and comm != 0:
                 out.append('%s: zero-fee model charged %s' % (w, tx[4]))
